@@ -91,7 +91,7 @@ fn one_run(inp: &super::c04::Input, sel: &str, threads: Option<usize>, k: usize,
         prefs.threads = threads;
         prefs.should_abort = Some(abort_at(k, p2, gen));
         prefs
-    }, idle_s);
+    }, idle_s, &|op| matches!(op, "stage" | "pre_poll" | "task_skip" | "loop_exit" | "sieve_ret" | "unit_start" | "poll" | "call" | "returned"));
     (r, polls.load(Ordering::SeqCst))
 }
 
@@ -149,7 +149,7 @@ pub fn run(args: &Args) -> i32 {
                     work_ecm % nshards == shard
                 } else {
                     work += 1;
-                    (work + nshards / 2) % nshards == shard
+                    (work * 2654435761usize >> 7) % nshards == shard
                 };
                 if !mine || stop {
                     continue;
@@ -209,7 +209,7 @@ pub fn run(args: &Args) -> i32 {
                     let mut e = json!({
                         "op": "abort_run", "case": format!("{}/k{}", group, k), "group": group, "alg": sel,
                         "threads": threads.map(|t| t as i64).unwrap_or(0), "k": k, "dry_polls": n_polls, "polls": np,
-                        "units": nunits, "raw_events": r.events.len(), "wall_ms": (r.wall_ms * 10.0).round() / 10.0,
+                        "units": nunits, "raw_events": r.raw_count, "wall_ms": (r.wall_ms * 10.0).round() / 10.0,
                         "bits": inp.n.bits(), "n": dn(&inp.n), "n_dec": inp.n.to_string(), "evs": evs,
                     });
                     let of = outcome_fields(&r.outcome);
